@@ -15,7 +15,8 @@ accounting, loop alive) is what the machine has to predict.
 import os, random, struct, sys, threading, time, contextlib
 from tools.lib import rawdrv as rd
 
-MODELLED = {"FHandshake", "FHandleRequest", "FSendExc", "FJobCall", "FMuxEvents"}
+MODELLED = {"FHandshake", "FHandleRequest", "FSendExc", "FJobCall", "FMuxEvents", "FMuxHandleReq"}
+FILTERED = {"FMuxHandleReq"}     # modelled, but exceptions one of its own handlers contains (getpeername in a handler) are noise
 MAXMSG = 1 << 20
 CURRENT = None          # the active Recorder (wrappers are installed once per process)
 HANGS = [0]             # unanswered waits seen in this process: a systematic hang must cost seconds per case, not minutes
@@ -249,8 +250,21 @@ class BadStr(Exception):             # cannot be serialised and cannot be printe
         raise RuntimeError("no str")
 
 
+class BadStrOnly(Exception):         # serialisable, but str() raises: only eager formatting of it can fail
+    def __str__(self):
+        raise RuntimeError("no str")
+
+
 def zoo():
     from Pyro5 import errors
+
+    class BadStrProto(errors.ProtocolError):      # a communication error (never answered, always re-raised) that cannot be printed
+        def __str__(self):
+            raise RuntimeError("no str")
+
+    class BadStrTimeout(errors.TimeoutError):
+        def __str__(self):
+            raise RuntimeError("no str")
 
     class SecOS(errors.SecurityError, OSError):
         pass
@@ -268,14 +282,15 @@ def zoo():
          "ProtocolError": errors.ProtocolError, "SerializeError": errors.SerializeError,
          "MessageTooLargeError": errors.MessageTooLargeError, "DaemonError": errors.DaemonError,
          "NamingError": errors.NamingError, "PyroError": errors.PyroError,
-         "Plain": Plain, "Unser": Unser, "BadStr": BadStr, "SecOS": SecOS, "ClosedSub": ClosedSub, "OSSub": OSSub}
+         "Plain": Plain, "Unser": Unser, "BadStr": BadStr, "SecOS": SecOS, "ClosedSub": ClosedSub, "OSSub": OSSub,
+         "BadStrOnly": BadStrOnly, "BadStrProto": BadStrProto, "BadStrTimeout": BadStrTimeout}
     return z
 
 
 ZOO_NAMES = ["ValueError", "KeyError", "OSError", "ConnectionResetError", "TimeoutError", "ZeroDivisionError", "AssertionError",
              "UnicodeDecodeError", "SecurityError", "ConnectionClosedError", "CommunicationError", "PyroTimeoutError",
              "ProtocolError", "SerializeError", "MessageTooLargeError", "DaemonError", "NamingError", "PyroError",
-             "Plain", "Unser", "BadStr", "SecOS", "ClosedSub", "OSSub"]
+             "Plain", "Unser", "BadStr", "SecOS", "ClosedSub", "OSSub", "BadStrOnly", "BadStrProto", "BadStrTimeout"]
 
 
 def make_target(rec):
@@ -308,6 +323,11 @@ def make_target(rec):
         def cb(self, name):
             rec.add("method", threading.get_ident(), "cb")
             boom(name)
+
+        def slow(self, x):
+            rec.add("method", threading.get_ident(), "slow")
+            time.sleep(0.15)
+            return x + 1
 
         def numbers(self, n):
             rec.add("method", threading.get_ident(), "numbers")
@@ -787,6 +807,26 @@ class Player:
                     or r.get("value") != x + 1:
                 viol.append(("witness-wrong-reply", "witness call echo(%d) seq %d answered %r" % (x, wseq[0], {k: r.get(k) for k in ("type", "flags", "seq", "value")})))
 
+        pending = []
+
+        def wsend_slow(x):
+            # the witness keeps the serving thread busy for 150 ms (multiplex: the whole loop): what the other clients do
+            # meanwhile is reported to the server in ONE select round
+            wseq[0] = (wseq[0] + 1) % 65536
+            wtouch()
+            w.send(rd.invoke_msg("t", "slow", (x,), seq=wseq[0]))
+            pending.append((x, wseq[0]))
+
+        def wrecv():
+            if not pending:
+                return
+            x, sq = pending.pop(0)
+            r = patient(w, first, more, srv.loop_alive)
+            if not isinstance(r, dict):
+                noreply("witness call slow(%d)" % x, r)
+            elif r.get("type") != protocol.MSG_RESULT or r.get("flags", 0) & protocol.FLAGS_EXCEPTION or r.get("seq") != sq or r.get("value") != x + 1:
+                viol.append(("witness-wrong-reply", "witness call slow(%d) seq %d answered %r" % (x, sq, {k: r.get(k) for k in ("type", "flags", "seq", "value")})))
+
         def wping():
             wseq[0] = (wseq[0] + 1) % 65536
             wtouch()
@@ -840,6 +880,17 @@ class Player:
                 wcall(st[1])
             elif op == "wping":
                 wping()
+            elif op == "wslow":
+                wsend_slow(st[1])
+                time.sleep(0.03)          # the server is inside the method now
+            elif op == "wrecv":
+                wrecv()
+            elif op == "open_now":
+                try:
+                    clients[st[1]] = rd.RawClient(srv.port, timeout=2.0)
+                    self.opened += 1
+                except OSError:
+                    dead.add(st[1])
             elif op == "arm":
                 rec.arm_handover = True
             elif op == "idle":
@@ -913,6 +964,8 @@ class Player:
             elif op == "reset":
                 clients[st[1]].reset()
                 dead.add(st[1])
+        while pending and srv.loop_alive() and not stuck[0]:
+            wrecv()
         if not srv.loop_alive():
             # everything else (unanswered new clients, accounting) follows from this
             viol.append(("request-loop-died:" + stype, "the daemon's request loop ended with %r" % (srv.loop_exception,)))
@@ -1001,7 +1054,7 @@ class Player:
                     ep["act"] = i if ep["act"] is None else ep["act"]
             elif k == "fault":
                 ep = cur.get(e[1])
-                if e[2] not in MODELLED and self.rec.locally_contained(e[2], e[3], e[4]):
+                if (e[2] not in MODELLED or e[2] in FILTERED) and self.rec.locally_contained(e[2], e[3], e[4]):
                     continue
                 if e[2] not in MODELLED or ep is None:
                     anomalies.append("fresh exception %s surfacing in %s line %d outside the modelled points" % (e[4][0], e[2], e[5]))
